@@ -3,10 +3,18 @@ Lemmas for the layout algebra (C01 part 1).  Names used by Acme.Props.C01:
 verifyInsert_spec, insert_wf, verifyAppend_spec, append_wf, remove_wf, compact_spec,
 resize_spec, verifyGrow_spec, grow_wf, grow_nopanic, shrink_spec, shiftLeft_spec,
 shiftRight_spec.
+
+The proofs are split over
+  Acme.Proofs.LayoutBasic  (decidability instances, WFfrom facts, insert/append/remove/compact/resize)
+  Acme.Proofs.LayoutIds    (IdsNodup / find / setSize facts)
+  Acme.Proofs.LayoutShift  (shrink, shiftLeft, shiftRight)
+  Acme.Proofs.LayoutGrow   (verifyGrow, growStarts)
+`List.Forall₂` (used by the statements in Props) comes from Batteries.Data.List.Basic,
+imported by LayoutBasic.
 -/
 import Acme.Core.Layout
 import Acme.Spec.Layout
-
-namespace Acme.Layout
-
-end Acme.Layout
+import Acme.Proofs.LayoutBasic
+import Acme.Proofs.LayoutIds
+import Acme.Proofs.LayoutShift
+import Acme.Proofs.LayoutGrow
